@@ -225,7 +225,7 @@ class _SolveIVP(torch.autograd.Function):
             if ts_requires_grad:
                 feval = pfunc2(ts_flip[i], states[y_index], tensor_params)[0]
                 dLdt1 = torch.dot(feval.reshape(-1), grad_yt[t_flip_idx].reshape(-1))
-                states[dLdt_index] -= dLdt1
+                states[dLdt_index] = states[dLdt_index] - dLdt1
                 grad_ts[t_flip_idx] = dLdt1.reshape(-1)
 
             t_flip_idx -= 1
